@@ -1475,6 +1475,20 @@ pub fn c10(cfg: &Config, tr: &Trace, an: &Analysis, out: &mut Vec<Violation>) {
             _ => None,
         });
         let Some((at, ev)) = hit else { continue };
+        // "... carrying the payload": the value that was thrown, of the type it was thrown as
+        let want = crate::refm::panic_payload(*outcome, key, *inv);
+        let carried = match ev {
+            ScEv::Step(_, _, _, StepEv::Failed(p, _)) | ScEv::Hook(_, HookEv::Failed(p, _)) => p.clone(),
+            _ => String::new(),
+        };
+        if !carried.contains(&want) {
+            out.push(v(
+                "C10",
+                "payload-retyped",
+                format!("the panic of {key}#{inv} threw {want} but its Failed event carries {carried}"),
+            ));
+            break;
+        }
         // ... of the attempt that ran it: the same retry counter as that attempt's Started
         if let Some((name, retries, _)) = tr.events[at].ev.scenario() {
             let started = tr.events[..at].iter().rev().find_map(|te| match te.ev.scenario() {
@@ -1497,7 +1511,7 @@ pub fn c10(cfg: &Config, tr: &Trace, an: &Analysis, out: &mut Vec<Violation>) {
         let ok = match ev {
             ScEv::Step(bg, text, _, _) => {
                 let want_bg = key.starts_with("bg ") || key.starts_with("rbg ");
-                (key.starts_with("step ") || want_bg) && *bg == want_bg && text == key
+                (key.starts_with("step ") || want_bg) && *bg == want_bg && crate::spec::strip_lead(text) == key
             }
             ScEv::Hook(k, _) => {
                 (key.starts_with("before ") && *k == crate::canon::HookKind::Before)
